@@ -28,7 +28,7 @@ def sig(e):
 
 def run(tier, seed):
     exe = vlib.build_harness()
-    key = "%s-%s-%s-%d" % (file_hash(exe), vlib.spec_hash("Conditions.tla", "ConditionsObs.tla", "Trace_Conditions.tla", "MC_Cond.tla", "CondMenus.tla"), tier, seed)
+    key = "%s-%s-%s-%s-%d" % (file_hash(__file__)[:8], file_hash(exe), vlib.spec_hash("Conditions.tla", "ConditionsObs.tla", "Trace_Conditions.tla", "MC_Cond.tla", "CondMenus.tla"), tier, seed)
     wd = vlib.workdir("cond")
     cache = os.path.join(wd, "result-%s.json" % key)
     if os.path.exists(cache):
